@@ -42,6 +42,7 @@ type Frame struct {
 	pendingArgLocs map[int]*Loc // interior-address arguments of the call being translated
 	argLocsUsed    bool         // the callee was inlined and bound them
 	curRangeIdx  *ssa.Alloc // hidden index of the loop whose invariants are being evaluated
+	curMapRange  *ssa.Range // map range of the loop whose invariants are being evaluated (visited(k))
 	cellAlloc    map[*ssa.Alloc]bool
 	params       []Term
 	entry        *State
@@ -282,6 +283,8 @@ func (fr *Frame) storeToLoc(st *State, l *Loc, v Term) {
 func (fr *Frame) nilCheck(l *Loc, guard Term, what string) {
 	if l.kind == "field" || l.kind == "ptr" || l.kind == "structref" {
 		fr.vc.oblige("nil", "safety", what, guard, not(eq(l.ref, tZero)), "nil dereference: "+what)
+		// execution continues past a dereference only if it did not panic
+		fr.vc.assume(guard, not(eq(l.ref, tZero)))
 	}
 }
 
@@ -661,6 +664,14 @@ func (fr *Frame) instr(in ssa.Instruction, st *State, pc Term, b *ssa.BasicBlock
 		vc.warn("%s: go statement: effects of the goroutine are not tracked (heap havoc)", fr.fn.Name())
 		preGo := st.clone()
 		vc.havocAllHeaps(st)
+		// ghosts that the spawned function (or what it calls) assigns with
+		// set clauses may change at any time from here on
+		for _, h := range vc.callEffects(fr, &in.Call).sorted() {
+			if vc.specs.isSetGhostHeap(h) {
+				vc.havocHeap(st, h)
+				vc.warn("%s: go statement starts a function with set clauses for %s: the ghost is havoced (interference is not modelled)", fr.fn.Name(), h)
+			}
+		}
 		if ci, ok := fr.closures[in.Call.Value]; ok {
 			// the goroutine writes only the variables it captures itself
 			fr.havocCapturedBy(ci, st, pc)
@@ -770,6 +781,25 @@ func (fr *Frame) unop(in *ssa.UnOp, st *State, pc Term) {
 	}
 }
 
+// strLitExt assumes the extensionality instance for a string value compared
+// with a string literal (at most 64 bytes: the length for which strConst
+// states the bytes): if x has the literal's length and bytes, x is the literal.
+func (vc *VC) strLitExt(pc, x Term, c *ssa.Const) {
+	if c.Value == nil || c.Value.Kind() != constant.String {
+		return
+	}
+	lit := constant.StringVal(c.Value)
+	if len(lit) == 0 || len(lit) > 64 {
+		return
+	}
+	l := vc.strConst(lit)
+	conj := []Term{eq(T(SInt, "(slen %s)", x.S), intLit(int64(len(lit))))}
+	for i := 0; i < len(lit); i++ {
+		conj = append(conj, eq(T(SInt, "(sat %s %d)", x.S, i), intLit(int64(lit[i]))))
+	}
+	vc.assume(pc, implies(and(conj...), eq(x, l)))
+}
+
 func (vc *VC) wrapUnsigned(v Term, t types.Type) Term {
 	bits := intBits(t)
 	m := new(big.Int).Lsh(big.NewInt(1), uint(bits))
@@ -799,6 +829,16 @@ func (fr *Frame) binop(in *ssa.BinOp, st *State, pc Term) Term {
 			r = vc.arrayEq(x, y, arr)
 		} else {
 			r = eq(x, y)
+			if x.Sort == SStr {
+				// Go string equality is extensional; the abstract Str sort is
+				// not. For a comparison with a literal, state the ground
+				// instance: same length and same bytes as the literal => equal.
+				if c, ok := in.Y.(*ssa.Const); ok {
+					vc.strLitExt(pc, x, c)
+				} else if c, ok := in.X.(*ssa.Const); ok {
+					vc.strLitExt(pc, y, c)
+				}
+			}
 		}
 		if in.Op == token.NEQ {
 			r = not(r)
@@ -1082,7 +1122,8 @@ func (vc *VC) strSub(s, lo, hi Term) Term {
 	vc.declare("str_sub", `(declare-fun str_sub (Str Int Int) Str)
 (assert (forall ((s Str) (lo Int) (hi Int)) (! (=> (and (<= 0 lo) (<= lo hi) (<= hi (slen s))) (= (slen (str_sub s lo hi)) (- hi lo))) :pattern ((str_sub s lo hi)))))
 (assert (forall ((s Str) (lo Int) (hi Int) (i Int)) (! (=> (and (<= 0 i) (< i (- hi lo))) (= (sat (str_sub s lo hi) i) (sat s (+ lo i)))) :pattern ((sat (str_sub s lo hi) i)))))
-(assert (forall ((s Str)) (! (= (str_sub s 0 (slen s)) s) :pattern ((str_sub s 0 (slen s))))))`)
+(assert (forall ((s Str)) (! (= (str_sub s 0 (slen s)) s) :pattern ((str_sub s 0 (slen s))))))
+(assert (forall ((s Str) (a Int) (b Int) (c Int) (d Int)) (! (=> (and (<= 0 a) (<= a b) (<= b (slen s)) (<= 0 c) (<= c d) (<= d (- b a))) (= (str_sub (str_sub s a b) c d) (str_sub s (+ a c) (+ a d)))) :pattern ((str_sub (str_sub s a b) c d)))))`)
 	return T(SStr, "(str_sub %s %s %s)", s.S, lo.S, hi.S)
 }
 
